@@ -45,7 +45,7 @@ ALL = list(INT_FLAGS) + list(REAL_FLAGS) + ['twopl']
 
 def BOUNDS(tier):
     return ('4 problem types x {required set, each required flag removed, each other flag added}%s; all numeric arguments symbolic (unbounded integers / reals)'
-            % ('' if tier == 'quick' else ' + required set with two optional flags added'))
+            % ' + required set with two optional flags added')
 
 
 def tasks(tier, seed):
@@ -58,7 +58,7 @@ def tasks(tier, seed):
         for a in ALL:
             if a not in req:
                 sets.append(req + [a])
-        if tier == 'thorough':
+        if True:
             opt = [a for a in ALL if a not in req and a not in BANNED[mp]]
             for a, b in itertools.combinations(opt, 2):
                 sets.append(req + [a, b])
